@@ -90,6 +90,17 @@ CLAIMED = {
             "(duplicate names, stand-alone super, computed imports) and forms the Jsonnet documents leave open are only checked "
             "for agreement between the two evaluator parsers",
             "DESIGN.md §4 C06"),
+    "C12": ("TLA+ spec Format (format-string parser state machine + rendering of d i u o x X c s %% with flags, width, "
+            "precision, star arguments, %(key), errors) evaluated by TLC on the enumerated cross product; every pair replayed "
+            "through std.format and %; floating conversions trace-validated (LayoutFloat around CPython's digits)",
+            "TLC computes Format(fmt, vals) for flags x width x precision x conversion x values, star-argument shapes, mapping keys "
+            "and malformed/truncated formats; the implementation must produce exactly that text or fail exactly when the model "
+            "fails, through std.format, `fmt % [vals]` and `fmt % scalar`; for e E f F every (flags, width, precision, value) the "
+            "output must be the specification's sign/zero-padding/alignment around the oracle's magnitude text",
+            "trusted: TLC, Format.tla's transcription of Python %-formatting, CPython's printf for the digits of floating "
+            "conversions (rounding ties excluded); forms where Python 3 and std.jsonnet differ (#o, # on 0, %s precision, %g digit "
+            "count, key with positional values) are undecided and only required not to crash",
+            "DESIGN.md §4 C12"),
 }
 
 NOT_YET = "specification module and binding not built yet in this round; see DESIGN.md §4 for the planned model"
